@@ -20,6 +20,8 @@ import (
 	"regexp"
 	"sort"
 	"strings"
+
+	"golang.org/x/tools/go/types/typeutil"
 )
 
 func init() { register("C13", checkC13) }
@@ -335,6 +337,7 @@ func c13RestOfC13(p *Prog, r *Report) {
 	c13RuneSlicing(p, r)
 	c13YamlIndexAgreement(p, r)
 	c13FlagCharacters(p, r)
+	c13SiblingStateCalls(p, r)
 }
 
 // soilSiblingPair: the two soil readers fill the same destinations with the same value shape (shared with C15.R7)
@@ -1680,5 +1683,79 @@ func c13FlagCharacters(p *Prog, r *Report) {
 			detail += "; no such flag in the reader"
 		}
 		r.Ob("flag-chars:"+s.fn+":"+s.field, s.pos, ok, detail)
+	}
+}
+
+// ---------------------------------------------------------------- helper calls on the run state agree between siblings
+
+// c13SiblingStateCalls: the value-shape comparison of the two crop readers does not enter helper functions that
+// receive the run state (reset of the stage-day markers, the partitioning check).  Demanded: both readers call the
+// same helpers on the run state, each under the same conditions.
+func c13SiblingStateCalls(p *Prog, r *Report) {
+	r.Rule("C13.state-calls", "the classic and the YAML crop reader call the same helper functions on the run state, each under the same conditions", 2)
+	collect := func(key string) (map[string]string, bool) {
+		fi := p.Funcs[key]
+		if fi == nil {
+			return nil, false
+		}
+		info := fi.Pkg.TypesInfo
+		out := map[string]string{}
+		ast.Inspect(fi.Decl.Body, func(n ast.Node) bool {
+			call, ok := n.(*ast.CallExpr)
+			if !ok {
+				return true
+			}
+			fn, ok := typeutil.Callee(info, call).(*types.Func)
+			if !ok || fn.Pkg() == nil || fn.Pkg() != fi.Pkg.Types {
+				return true
+			}
+			state := false
+			for _, a := range call.Args {
+				if _, ok := info.TypeOf(a).(*types.Pointer); ok && isNamed(info.TypeOf(a), "hermes", "GlobalVarsMain") {
+					state = true
+				}
+			}
+			if !state {
+				return true
+			}
+			conds, _ := astPathConds(info, fi.Decl.Body, call)
+			var cs []string
+			for _, c := range conds {
+				if c.Exit == nil { // validation exits before the call differ by format; enclosing conditions must not
+					cs = append(cs, c.String())
+				}
+			}
+			sort.Strings(cs)
+			out[fn.Name()+" under "+fmt.Sprint(cs)] = p.Pos(call.Pos())
+			return true
+		})
+		return out, true
+	}
+	a, okA := collect("hermes.ReadCropParamClassic")
+	b, okB := collect("hermes.ReadCropParamYml")
+	if !okA || !okB {
+		r.Ob("state-calls", "-", false, "reader not found")
+		return
+	}
+	keys := map[string]bool{}
+	for k := range a {
+		keys[k] = true
+	}
+	for k := range b {
+		keys[k] = true
+	}
+	var ks []string
+	for k := range keys {
+		ks = append(ks, k)
+	}
+	sort.Strings(ks)
+	for _, k := range ks {
+		pa, inA := a[k]
+		pb, inB := b[k]
+		pos := pa
+		if !inA {
+			pos = pb
+		}
+		r.Ob("state-calls:"+k, pos, inA && inB, fmt.Sprintf("classic reader: %v (%s); YAML reader: %v (%s)", inA, pa, inB, pb))
 	}
 }
